@@ -21,7 +21,7 @@
    every further call succeeds).  A slot WITHOUT a path is not the environment's business: lbuf_save(lb, 0, -1, "", ...) finds
    mtime("") = -1 = the recorded stamp, so neither guard refuses, and open("", O_WRONLY | O_CREAT) fails: "write failed: cannot
    create file", with or without `!`, whether the buffer holds text or not.  A save that succeeds puts the text into the file and
-   touches NOTHING of the buffer's bookkeeping (no lbuf_saved, no mtime) -- the editor is about to exit; `written` says exactly that.
+   marks the buffer saved (`written`; ex.c since 37c81b2: lbuf_saved(b->lb, 0); b->mtime = mtime(b->path)).
    No proofs here (DirtyAllProps.v). *)
 From Coq Require Import List Arith NArith ZArith Bool.
 From NV Require Import GenConsts UndoDefs DirtyDefs.
@@ -34,8 +34,10 @@ Definition set_nb (f : nbuf) (e : ebuf) : nbuf := {| nb := e; nname := nname f |
 (* the environment's answer to the next lbuf_save call on a path *)
 Definition next_ok (sch : list bool) : bool * list bool := match sch with [] => (true, []) | b :: r => (b, r) end.
 
-(* lbuf_save returned NULL for the whole buffer and its own path: the file holds the text; the buffer is as it was *)
-Definition written (f : nbuf) : nbuf := set_nb f {| lb := lb (nb f); disk := ln (lb (nb f)) |}.
+(* lbuf_save returned NULL for the whole buffer and its own path: the file holds the text, and (since fix 37c81b2) the loop records it:
+   lbuf_saved(b->lb, 0); b->mtime = mtime(b->path) -- the saved mark of DSaveWhole.  (Before 37c81b2 the buffer was left as it was: a
+   REFUSED xa then had buffers whose file held a newer text than their saved mark said; after one undo they reported clean.) *)
+Definition written (f : nbuf) : nbuf := set_nb f {| lb := lbuf_saved (lb (nb f)) false; disk := ln (lb (nb f)) |}.
 
 (* bufs_switch(idx) on pre ++ Some b :: r, idx = length pre (DirtyDefs.switch_tab on entries with names) *)
 Definition bumpN (s : option nbuf) : option nbuf := match s with Some x => Some (set_nb x (bumpE (nb x))) | None => None end.
